@@ -540,6 +540,9 @@ func (vlog *valueLog) createVlogFile() (*logFile, error) {
 	if err != z.NewFile && err != nil {
 		return nil, err
 	}
+	if serr := syncDir(vlog.dirPath); serr != nil {
+		return nil, y.Wrapf(serr, "createVlogFile: syncing directory")
+	}
 
 	vlog.filesLock.Lock()
 	vlog.filesMap[fid] = lf
